@@ -526,6 +526,8 @@ def case_handbuilt(dc, case, res, tmp, tie=None):
             res.fail("complete matrix refuses to densify", case, "ValueError", "dense matrix")
     if tie is not None:
         tie.add("dense " + cdm_arg(m), out, ("dense-handbuilt", n, len(entries)))
+        # the model's save/load (CDM.load (CDM.save m)) against the matrix that came back from the real file
+        tie.add("roundtrip " + cdm_arg(m), show_cdm(m), ("roundtrip", n, len(entries)))
 
 
 @contextlib.contextmanager
